@@ -171,6 +171,9 @@ def main(argv=None):
                 continue
             seen.add(oid)
             lad = replay_ladder(unit, o, seed, tier)
+            herr = [x for x in (lad.get('model_replay', {}).get('harness_error'), lad.get('search', {}).get('harness_error')) if x]
+            if herr and lad['kind'] != 'confirmed':
+                errors.append('native harness failed while replaying %s: %s' % (oid, herr[0][-300:]))
             rec = dict(obligation=oid, path=o['path'], note=o['note'], solver='sat (%s, %.3fs)' % (o['backend'], o['time_s']),
                        smt_head=o.get('smt_head'), model=o.get('model'), ladder=lad)
             wit = witness_text(rec)
